@@ -242,4 +242,5 @@ func runC03(c *h.Ctx) {
 		cs.Distinct(fmt.Sprintf("d-%d", cs.I))
 	})
 	runJSConvT2J(c)
+	runBaseExceptionT2J(c)
 }
